@@ -761,111 +761,7 @@ func (g *gen) inlineHTML(seq []*inl, sb *strings.Builder) {
 
 // ---------------------------------------------------------------- block serialisation
 
-func (g *gen) inlineLines(seq []*inl) []string {
-	var sb strings.Builder
-	g.inlineMD(seq, &sb)
-	return strings.Split(sb.String(), "\n")
-}
-
 func isList(b *blk) bool { return b.k == kBullet || b.k == kOrdered }
-
-// blockLines returns the lines of one block (no line endings).
-func (g *gen) blockLines(b *blk) []string {
-	switch b.k {
-	case kPara:
-		return g.inlineLines(b.inl)
-	case kATX:
-		l := strings.Repeat("#", b.level) + " " + strings.Join(g.inlineLines(b.inl), " ")
-		if b.closing {
-			l += " " + strings.Repeat("#", 1+b.level%3)
-		}
-		return []string{l}
-	case kSetext:
-		ls := g.inlineLines(b.inl)
-		ch := "="
-		if b.level == 2 {
-			ch = "-"
-		}
-		return append(ls, strings.Repeat(ch, 3+len(ls)%4))
-	case kBreak:
-		return []string{b.brk}
-	case kFenced:
-		f := strings.Repeat(string(b.fenceCh), b.fenceN)
-		open := f
-		if b.info != "" {
-			open += " " + b.info
-		}
-		out := []string{open}
-		out = append(out, b.lines...)
-		return append(out, f)
-	case kIndented:
-		var out []string
-		for _, l := range b.lines {
-			if l == "" {
-				out = append(out, "")
-			} else {
-				out = append(out, "    "+l)
-			}
-		}
-		return out
-	case kQuote:
-		var out []string
-		for _, l := range g.blocksLines(b.kids, false) {
-			if l == "" {
-				out = append(out, ">")
-			} else {
-				out = append(out, "> "+l)
-			}
-		}
-		return out
-	case kBullet, kOrdered:
-		var out []string
-		for i, item := range b.items {
-			marker := string(b.delim)
-			if b.k == kOrdered {
-				marker = strconv.Itoa(b.start+i) + string(b.delim)
-			}
-			if i > 0 && b.loose {
-				out = append(out, "")
-			}
-			ind := strings.Repeat(" ", len(marker)+1)
-			for j, l := range g.blocksLines(item, !b.loose) {
-				switch {
-				case j == 0:
-					out = append(out, marker+" "+l)
-				case l == "":
-					out = append(out, "")
-				default:
-					out = append(out, ind+l)
-				}
-			}
-		}
-		return out
-	case kHTML:
-		return append([]string(nil), b.lines...)
-	case kRefDef:
-		l := "[" + b.label + "]: " + b.dest
-		if b.hasTtl {
-			l += " \"" + b.title + "\""
-		}
-		return []string{l}
-	}
-	panic("unknown block kind")
-}
-
-// blocksLines joins sibling blocks. tight: no blank line between siblings
-// (only used inside tight list items, whose content is restricted so that
-// each block may directly follow the previous one).
-func (g *gen) blocksLines(bs []*blk, tight bool) []string {
-	var out []string
-	for i, b := range bs {
-		if i > 0 && !tight {
-			out = append(out, "")
-		}
-		out = append(out, g.blockLines(b)...)
-	}
-	return out
-}
 
 func (g *gen) codeHTML(lines []string) string {
 	var sb strings.Builder
@@ -984,8 +880,7 @@ func Generate(r *core.Rand, p Profile) *Doc {
 			top = append(top[:i], append([]*blk{g.paragraph(false)}, top[i:]...)...)
 		}
 	}
-	lines := g.blocksLines(top, false)
-	md := strings.Join(lines, "\n") + "\n"
+	md := g.serialize(top)
 	var sb strings.Builder
 	first := true
 	for _, b := range top {
